@@ -31,6 +31,7 @@ STORE = ['store',
 VALUES = {
     'p': [UA, UB, UC], 'r': [DOC, UA], 'f': [gen.vbool(True), gen.vbool(False)], 'n': [gen.vlong(1), gen.vlong(2)],
     'm': [gen.vlong(1), gen.vstr('s'), gen.vlong(gen.MAX64)], 'w': [UA, UB], 'g': [G, gen.vent('Group', 'h'), UA],
+    's': [gen.vstr('10.0.0.1'), gen.vstr('1.5'), gen.vstr('not a literal'), gen.vlong(3)],
 }
 
 
@@ -86,6 +87,8 @@ def gen_template(r):
             fields.append(('who', var(r.choice(['p', 'w'])) if r.random() < 0.7 else UA))
         if r.random() < 0.15:
             fields.append(('ig', ign()))
+        if r.random() < 0.5:
+            fields.append(('str', var('s') if r.random() < 0.6 else gen.vstr(r.choice(['10.0.0.1', '1.5', 'x']))))
         # unknowns nested below members of sets and inside records that are compared whole
         if r.random() < 0.5:
             fields.append(('groups', gen.vset([var('g') if r.random() < 0.7 else G, gen.vent('Group', 'z')])))
@@ -161,6 +164,19 @@ def atom_expr(r):
                          ['sub', acc(acc(C, 'r'), 'y'), L(4)], ['mul', acc(C, 'n'), L(1)], ['neg', ['neg', acc(C, 'n')]], L(gen.MAX64)])
     choices += [lambda: [r.choice(['lt', 'le', 'gt', 'ge', 'eq', 'ne']), num(), num()]] * 8
     choices += [lambda: ['eq', [r.choice(['add', 'sub', 'mul']), num(), num()], L(r.choice([0, 1, 2, 4, 6]))]] * 3
+    # operands of the wrong kind for &&, ||, if (known and unknown), and extension constructors / methods over known and unknown strings
+    def anyb():
+        return r.choice([acc(C, 'flag'), lit(gen.vbool(True)), lit(gen.vbool(False)), ['eq', acc(C, 'n'), L(1)], acc(C, 'missing')])
+    def nonbool():
+        return r.choice([L(1), lit(gen.vstr('s')), acc(C, 'n'), acc(C, 'str'), acc(C, 'r'), acc(C, 'l')])
+    choices += [lambda: ['and', nonbool(), anyb()], lambda: ['and', anyb(), nonbool()], lambda: ['or', nonbool(), anyb()], lambda: ['or', anyb(), nonbool()],
+                lambda: ['if', nonbool(), anyb(), anyb()], lambda: ['not', nonbool()], lambda: ['if', anyb(), nonbool(), anyb()]]
+    sarg = lambda: r.choice([acc(C, 'str'), lit(gen.vstr('10.0.0.1')), lit(gen.vstr('1.5')), lit(gen.vstr('bad')), acc(acc(C, 'r'), 'x')])
+    choices += [lambda: ['call', S('isIpv4'), ['call', S('ip'), sarg()]], lambda: ['call', S('isInRange'), ['call', S('ip'), sarg()], ['call', S('ip'), lit(gen.vstr('10.0.0.0/8'))]],
+                lambda: ['call', S('lessThan'), ['call', S('decimal'), sarg()], ['call', S('decimal'), lit(gen.vstr('2.0'))]],
+                lambda: ['lt', ['call', S('datetime'), sarg()], ['call', S('datetime'), lit(gen.vstr('2024-01-01'))]],
+                lambda: ['gt', ['call', S('toHours'), ['call', S('duration'), sarg()]], acc(C, 'n')],
+                lambda: ['call', S('isIpv4'), sarg()], lambda: ['call', S('ip'), sarg(), sarg()], lambda: ['call', S('nosuchfn'), sarg()]] * 2
     choices += [lambda: [r.choice(['containsAll', 'containsAny']), acc(C, 'l'), lit(gen.vset([gen.vlong(z) for z in r.sample([1, 2, 3], r.randrange(0, 3))]))],
                 lambda: ['isEmpty', acc(C, 'l')], lambda: ['ne', acc(C, 'who'), P], lambda: ['ne', P, lit(r.choice([UA, UB]))],
                 lambda: ['like', acc(P, 'name'), ['pat', ['w'], S('ce')]], lambda: ['hasTag', P, lit(gen.vstr(r.choice(['k', 'zz'])))]]
@@ -181,10 +197,13 @@ def bool_expr(r, depth):
 def scope_for(r, which):
     k = r.randrange(6)
     if which == 'action':
-        return ['all'] if k < 3 else (['eq', ACT] if k < 5 else ['eq', gen.vent('Action', 'edit')])
+        # every action scope form: all, ==, in, in [..] (empty, with the action, without it)
+        return r.choice([['all'], ['all'], ['all'], ['eq', ACT], ['eq', ACT], ['eq', gen.vent('Action', 'edit')], ['in', ACT], ['in', gen.vent('Action', 'grp')],
+                         ['inset'], ['inset', ACT], ['inset', gen.vent('Action', 'edit'), ACT], ['inset', gen.vent('Action', 'edit')]])
     if which == 'principal':
-        return [['all'], ['all'], ['eq', UA], ['in', G], ['is', S('User')], ['isin', S('User'), G]][k]
-    return [['all'], ['all'], ['eq', DOC], ['in', DOC], ['is', S('Doc')], ['is', S('User')]][k]
+        return r.choice([['all'], ['all'], ['eq', UA], ['in', G], ['is', S('User')], ['isin', S('User'), G], ['in', UA], ['isin', S('Doc'), G], ['isin', S('User'), gen.vent('Group', 'h')],
+                         ['eq', UB], ['is', S('Group')]])
+    return r.choice([['all'], ['all'], ['eq', DOC], ['in', DOC], ['is', S('Doc')], ['is', S('User')], ['isin', S('Doc'), DOC], ['isin', S('User'), G], ['in', G], ['eq', UA]])
 
 
 def fix_ignored(part, which):
